@@ -315,6 +315,10 @@ func structKey(t types.Type) string {
 		p := ""
 		if o.Pkg() != nil {
 			p = o.Pkg().Name() + "_"
+			// packages with the same name but different paths (e.g. engine/executor and its proto package)
+			if pkgNameClash(o.Pkg()) {
+				p = mangle(o.Pkg().Path()) + "_"
+			}
 		}
 		s := p + o.Name()
 		if ta := n.TypeArgs(); ta != nil && ta.Len() > 0 {
@@ -1021,4 +1025,12 @@ func (g *Gen) rootAlloc(v ssa.Value) *ssa.Alloc {
 // storeTargets: heap var names possibly written by a store through address v (best effort; empty ⇒ unknown).
 func (g *Gen) storeTargets(v ssa.Value) []string {
 	return nil
+}
+
+// ambiguousPkgNames: package names used by more than one import path in the loaded world
+// (set once by loadWorld; deterministic for a given set of loaded packages).
+var ambiguousPkgNames = map[string]bool{}
+
+func pkgNameClash(p *types.Package) bool {
+	return ambiguousPkgNames[p.Name()]
 }
